@@ -29,9 +29,33 @@ import (
 // model of the input is used only to classify a difference by shape
 // (c02_triage.go) and is shown in the witness for orientation.
 
-func c02BuildCompact(in *c29Input) (*compact.World, error) {
+// c02relationsFirst is an OSM source that delivers relations before ways (the
+// PBF format recommends nodes, ways, relations, but does not demand it, and
+// extracts stitched from several files come in any order).
+type c02relationsFirst struct {
+	ingest.MemoryOSMSource
+}
+
+func (s *c02relationsFirst) Read(options osm.ReadOptions, emit osm.EmitWithGoroutine, ctx context.Context) error {
+	nodes, ways, relations := options, options, options
+	nodes.SkipWays, nodes.SkipRelations = true, true
+	relations.SkipNodes, relations.SkipWays = true, true
+	ways.SkipNodes, ways.SkipRelations = true, true
+	for _, o := range []osm.ReadOptions{nodes, relations, ways} {
+		if err := s.MemoryOSMSource.Read(o, emit, ctx); err != nil {
+			return err
+		}
+	}
+	return nil
+}
+
+func c02BuildCompact(in *c29Input, relationsFirst bool) (*compact.World, error) {
 	ns, ws, rs := c29Copy(in)
-	src, err := ingest.NewFeatureSourceFromPBF(&ingest.MemoryOSMSource{Nodes: ns, Ways: ws, Relations: rs}, &ingest.BuildOptions{Cores: 1}, context.Background())
+	var osmSource ingest.OSMSource = &ingest.MemoryOSMSource{Nodes: ns, Ways: ws, Relations: rs}
+	if relationsFirst {
+		osmSource = &c02relationsFirst{ingest.MemoryOSMSource{Nodes: ns, Ways: ws, Relations: rs}}
+	}
+	src, err := ingest.NewFeatureSourceFromPBF(osmSource, &ingest.BuildOptions{Cores: 1}, context.Background())
 	if err != nil {
 		return nil, err
 	}
@@ -179,7 +203,7 @@ func init() {
 		Quick: 128, Thorough: 1500,
 		MaxParallel: 16,
 		CaseCap:     10 * time.Minute, // one compact build costs 0.2-0.6 s alone but has been seen to take 45 s on a loaded machine
-		Required: []string{"probe_point_on_0_paths", "probe_point_on_1_path", "probe_point_on_2plus_paths", "interior_node_tagged", "interior_node_untagged",
+		Required: []string{"source_relations_before_ways", "probe_point_on_0_paths", "probe_point_on_1_path", "probe_point_on_2plus_paths", "interior_node_tagged", "interior_node_untagged",
 			"closed_ways", "closed_ways_cw", "multipolygons", "multipolygons_with_holes", "multipolygons_several_outers", "relations_of_relations", "relations_with_missing_members",
 			"multipolygons_unassemblable", "tags_not_searchable", "tags_searchable", "probe_ids", "probe_queries", "find_nonempty", "traverse_nonempty", "refs_nonempty", "areas_by_point_nonempty",
 			"traverse_multi_hop_segments"},
@@ -210,7 +234,11 @@ func init() {
 			}
 			c.Max("ms_build_basic", time.Since(t0).Milliseconds()) // reporting only, never part of a verdict
 			t0 = time.Now()
-			if p, class, frame, _ := core.Protect(func() { cw, err = c02BuildCompact(in) }); p {
+			relationsFirst := c.Index%4 == 2
+			if relationsFirst {
+				c.Count("source_relations_before_ways")
+			}
+			if p, class, frame, _ := core.Protect(func() { cw, err = c02BuildCompact(in, relationsFirst) }); p {
 				c.Violate("build:compact-panics@"+frame, in.Witness(), "building the compact index panicked: %s", class)
 				return
 			}
